@@ -310,8 +310,12 @@ func c08Inner(sc c08Scenario) (vk.Result, error) {
 			if err := present(p, len(pkts)-1, p.first, "first presentation"); err != nil {
 				return res, err
 			}
-			if p.accepted == 0 {
+			if p.accepted == 0 && op.Skew > -179000 && op.Skew < 179000 {
 				return res, vk.Violatef("a genuine fresh handshake was not accepted (needed as the base of the replay history)")
+			}
+			if p.accepted == 0 {
+				// stamped by a clock far ahead: refused now, and - since this presentation is remembered - refused for good
+				res.Labels = append(res.Labels, "first-presented-before-its-window")
 			}
 		case "again":
 			if len(pkts) == 0 {
@@ -475,6 +479,13 @@ func c08Gen(rt *rapid.T) c08Scenario {
 		k := rapid.IntRange(1, 3).Draw(rt, "k12")
 		sc.Ops = []c08Op{{K: "advance", Ms: int64(k)*12*3600*1000 - int64(rapid.IntRange(1, 350).Draw(rt, "before"))*1000}, {K: "new", Sig: "firefox", WS: rapid.IntRange(0, 4).Draw(rt, "ws0") == 0,
 			Skew: rapid.SampledFrom([]int64{0, 178000, 170000, 90000, -90000}).Draw(rt, "skew0")}}
+	}
+	if rapid.IntRange(0, 7).Draw(rt, "early") == 0 {
+		// a packet stamped by a client clock several minutes ahead is presented before its window opens, then twice
+		// more when the server clock has caught up with it
+		sk := rapid.SampledFrom([]int64{200000, 300000, 500000}).Draw(rt, "earlyskew")
+		sc.Ops = []c08Op{{K: "new", Sig: "firefox"}, {K: "new", Sig: "chrome", Skew: sk, WS: rapid.IntRange(0, 3).Draw(rt, "ews") == 0},
+			{K: "advance", Ms: sk + int64(rapid.IntRange(-150, 150).Draw(rt, "eadv"))*1000}, {K: "again", I: 1}, {K: "advance", Ms: 2000}, {K: "again", I: 1}}
 	}
 	if rapid.IntRange(0, 3).Draw(rt, "during") == 0 {
 		// a handshake that arrives while a clean-up is in progress, replayed shortly afterwards
